@@ -877,8 +877,8 @@ def gen_target(r, kind=None) -> dict:
 # are opaque to the model (they cannot raise inside a subroutine body: the generated recipes never raise)
 
 HISTORY_KINDS = ["nothing", "objects", "compiled-ok", "fail-build", "fail-version", "fail-overflow", "raise-fp",
-                 "raise-scratch", "probe", "router", "fail-late", "mixed", "twin", "shared-options"]
-QUICK_HISTORIES = ["nothing", "compiled-ok", "fail-version", "fail-overflow", "raise-fp", "router", "twin", "shared-options"]
+                 "raise-scratch", "probe", "router", "fail-late", "mixed", "twin", "shared-options", "many-slots"]
+QUICK_HISTORIES = ["nothing", "compiled-ok", "fail-version", "fail-overflow", "raise-fp", "router", "twin", "shared-options", "many-slots"]
 HBASE = 500  # names of history objects (targets use names below 100)
 
 
@@ -907,6 +907,12 @@ def gen_history(r, kind, target=None) -> list[dict]:
     acts: list[dict] = []
     op = lambda w: acts.append({"op": w})  # noqa: E731
     if kind == "nothing":
+        return acts
+    if kind == "many-slots":
+        # earlier activity of the process has used up slot ids: the target's automatic ids straddle a power of ten (999/1000, 9999/10000)
+        # or simply are large; numbering must follow the ids as numbers, whatever their size
+        acts.append({"opaque": "slots-until", "value": r.choice([r.randrange(990, 1000), r.randrange(996, 1000), r.randrange(9990, 10000),
+                                                                   r.randrange(99990, 100000), r.randrange(1000, 5000)])})
         return acts
     if kind == "shared-options":
         # other programs (reserved, dynamic and shared slots) compiled before with the very OptimizeOptions object the target uses
@@ -1017,6 +1023,11 @@ def run_opaque(pt, a):
     try:
         if k == "garbage":
             return [pt.Int(i) + pt.Int(i + 1) for i in range(a["n"])]
+        if k == "slots-until":
+            made = []
+            while pt.ScratchSlot.nextSlotId < a["value"]:
+                made.append(pt.ScratchSlot())
+            return made[-3:]
         if k == "recipe":
             import recipes
             prog = unpickle_prog(a["prog"])
